@@ -58,7 +58,8 @@ func (g *Valid) Pipe(nops, depth, joinDepth int, bound map[Ty][]string) *Pipe {
 	tables := []string{"T", "U", "Events", "t2"}
 	p := &Pipe{Table: Ident{Name: tables[g.Rng.Intn(len(tables))]}}
 	if g.Rng.Intn(8) == 0 {
-		p.Table = Ident{Name: "my table", Quoted: true}
+		// quoted table names: with a blank, spelled like keywords and operators, like the compiler's own names
+		p.Table = Ident{Name: []string{"my table", "let", "where", "join", "count()", "$left", "by", "and", "T;U"}[g.Rng.Intn(9)], Quoted: true}
 	}
 	kinds := []string{"count", "where", "where", "sort", "take", "top", "project", "extend", "summarize", "join", "as", "render"}
 	for i := 0; i < nops; i++ {
